@@ -2,105 +2,127 @@
    resolution) and the whole xls report (property C16, xls). *)
 From Calamine Require Import Prelude BiffSst BiffSst_proofs Meta Meta_proofs MetaXls_proofs
      MetaXlsb_proofs.
-From Calamine Require Col26 Col26_proofs Utf16 Utf16_proofs Ptg Ptg_proofs NumFmt NumFmt_proofs
+From Calamine Require Col26 Col26_proofs Utf16 Utf16_proofs Ptg Ptg_proofs Ptg_total NumFmt NumFmt_proofs
      FormulaEnv FormulaEnv_proofs.
 Open Scope N_scope.
 
 (* ------------------------------------------------------------------------------------- *)
-(** * parse_defined_names on the encoded token *)
+(** * parse_defined_names (the first-token rendering kept as a fallback) never fails on an encoding *)
 
-Lemma u16_in_mid : forall (pre post : bytes) v from, from = len pre ->
-  u16_in (pre ++ le16 v ++ post) from = Ok v.
+Lemma u16_in_bytes : forall (pre post : bytes) x y from, from = len pre ->
+  u16_in (pre ++ [x; y] ++ post) from = Ok (x + 256 * y).
 Proof.
-  intros pre post v from ->. unfold u16_in.
-  rewrite (slice_mid pre (le16 v) post (len pre) (len pre + 2) eq_refl eq_refl). cbn [obind].
-  rewrite <- (app_nil_r (le16 v)). apply read_u16_le16.
+  intros pre post x y from ->. unfold u16_in.
+  rewrite (slice_mid pre [x; y] post (len pre) (len pre + 2) eq_refl eq_refl). reflexivity.
 Qed.
 
-Lemma push_ref : forall (a : Ptg.cref) buf, cref_ok a = true ->
-  Col26.push_cell_ref (Ptg.cr_row a) (Ptg.cfield a) buf = Ok (buf ++ Ptg.render_cref a).
+Definition dn_total (rg : bytes) : Prop := exists f, xls_defined_name rg = Ok f.
+
+Lemma dn_other : forall p t,
+  is_ptg p 58 90 122 = false -> is_ptg p 59 91 123 = false ->
+  is_ptg p 60 92 124 = false -> is_ptg p 61 93 125 = false -> dn_total (p :: t).
 Proof.
-  intros a buf H. unfold cref_ok in H. apply andb_true_iff in H. destruct H as [Hr Hc].
-  unfold Ptg.cfield, Ptg.render_cref. apply Col26_proofs.push_cell_ref_spec; lia.
+  intros p t H1 H2 H3 H4. unfold dn_total, xls_defined_name. rewrite H1, H2, H3, H4. cbn [orb].
+  replace (len (p :: t) <? 1) with false by (rewrite len_cons; lia). eexists. reflexivity.
 Qed.
 
-Lemma defined_name_enc : forall x, xref_ok x = true ->
-  xls_defined_name (xref_rgce x) = Ok (Some (xref_ixti x), xref_text x).
+Lemma dn_ref3d : forall k i0 i1 r0 r1 c0 c1 rest,
+  dn_total (Ptg.cls_ptg 58 90 122 k :: [i0; i1] ++ [r0; r1] ++ [c0; c1] ++ rest).
 Proof.
-  intros x Hok. destruct x as [k i a|k i a b|k i|k i]; cbn [xref_ok xref_ixti xref_text] in *.
-  - (* PtgRef3d *)
-    set (p := Ptg.cls_ptg 58 90 122 k).
-    assert (Hp : is_ptg p 58 90 122 = true) by (unfold p; destruct k; reflexivity).
-    set (R := xref_rgce (XRef k i a)).
-    assert (HR : R = p :: le16 i ++ le16 (Ptg.cr_row a) ++ le16 (Ptg.cfield a)) by reflexivity.
-    assert (E1 : u16_in R 1 = Ok i)
-      by (apply (u16_in_mid [p] (le16 (Ptg.cr_row a) ++ le16 (Ptg.cfield a)) i 1 eq_refl)).
-    assert (E3 : u16_in R 3 = Ok (Ptg.cr_row a))
-      by (apply (u16_in_mid ([p] ++ le16 i) (le16 (Ptg.cfield a)) (Ptg.cr_row a) 3 eq_refl)).
-    assert (E5 : u16_in R 5 = Ok (Ptg.cfield a))
-      by (apply (u16_in_mid ([p] ++ le16 i ++ le16 (Ptg.cr_row a)) [] (Ptg.cfield a) 5 eq_refl)).
-    assert (HL : (len R <? 7) = false) by reflexivity.
-    unfold xls_defined_name. rewrite HR at 1. fold p. rewrite Hp, HL, E1, E3, E5. cbn [obind].
-    rewrite (push_ref a [] Hok). reflexivity.
-  - (* PtgArea3d *)
-    apply andb_true_iff in Hok. destruct Hok as [Ha Hb].
-    set (p := Ptg.cls_ptg 59 91 123 k).
-    assert (Hp1 : is_ptg p 58 90 122 = false) by (unfold p; destruct k; reflexivity).
-    assert (Hp : is_ptg p 59 91 123 = true) by (unfold p; destruct k; reflexivity).
-    set (r1 := Ptg.cr_row a). set (r2 := Ptg.cr_row b).
-    set (c1 := Ptg.cfield a). set (c2 := Ptg.cfield b).
-    set (R := xref_rgce (XArea k i a b)).
-    assert (HR : R = p :: le16 i ++ le16 r1 ++ le16 r2 ++ le16 c1 ++ le16 c2) by reflexivity.
-    assert (E1 : u16_in R 1 = Ok i)
-      by (apply (u16_in_mid [p] (le16 r1 ++ le16 r2 ++ le16 c1 ++ le16 c2) i 1 eq_refl)).
-    assert (E3 : u16_in R 3 = Ok r1)
-      by (apply (u16_in_mid ([p] ++ le16 i) (le16 r2 ++ le16 c1 ++ le16 c2) r1 3 eq_refl)).
-    assert (E5 : u16_in R 5 = Ok r2)
-      by (apply (u16_in_mid ([p] ++ le16 i ++ le16 r1) (le16 c1 ++ le16 c2) r2 5 eq_refl)).
-    assert (E7 : u16_in R 7 = Ok c1)
-      by (apply (u16_in_mid ([p] ++ le16 i ++ le16 r1 ++ le16 r2) (le16 c2) c1 7 eq_refl)).
-    assert (E9 : u16_in R 9 = Ok c2)
-      by (apply (u16_in_mid ([p] ++ le16 i ++ le16 r1 ++ le16 r2 ++ le16 c1) [] c2 9 eq_refl)).
-    assert (HL : (len R <? 11) = false) by reflexivity.
-    unfold xls_defined_name. rewrite HR at 1. fold p. rewrite Hp1, Hp, HL, E1, E3, E7, E5, E9.
-    cbn [obind]. unfold r1, c1. rewrite (push_ref a [] Ha). cbn [obind app].
-    unfold r2, c2. rewrite (push_ref b _ Hb). rewrite <- app_assoc. reflexivity.
-  - (* PtgRefErr3d *)
-    set (p := Ptg.cls_ptg 60 92 124 k).
-    assert (Hp1 : is_ptg p 58 90 122 = false) by (unfold p; destruct k; reflexivity).
-    assert (Hp2 : is_ptg p 59 91 123 = false) by (unfold p; destruct k; reflexivity).
-    assert (Hp : is_ptg p 60 92 124 = true) by (unfold p; destruct k; reflexivity).
-    set (R := xref_rgce (XRefErr k i)).
-    assert (HR : R = p :: le16 i ++ [0; 0; 0; 0]) by reflexivity.
-    assert (E1 : u16_in R 1 = Ok i) by (apply (u16_in_mid [p] [0; 0; 0; 0] i 1 eq_refl)).
-    assert (HL : (len R <? 3) = false) by reflexivity.
-    unfold xls_defined_name. rewrite HR at 1. fold p. rewrite Hp1, Hp2, Hp. cbn [orb].
-    rewrite HL, E1. reflexivity.
-  - (* PtgAreaErr3d *)
-    set (p := Ptg.cls_ptg 61 93 125 k).
-    assert (Hp1 : is_ptg p 58 90 122 = false) by (unfold p; destruct k; reflexivity).
-    assert (Hp2 : is_ptg p 59 91 123 = false) by (unfold p; destruct k; reflexivity).
-    assert (Hp3 : is_ptg p 60 92 124 = false) by (unfold p; destruct k; reflexivity).
-    assert (Hp : is_ptg p 61 93 125 = true) by (unfold p; destruct k; reflexivity).
-    set (R := xref_rgce (XAreaErr k i)).
-    assert (HR : R = p :: le16 i ++ [0; 0; 0; 0; 0; 0; 0; 0]) by reflexivity.
-    assert (E1 : u16_in R 1 = Ok i)
-      by (apply (u16_in_mid [p] [0; 0; 0; 0; 0; 0; 0; 0] i 1 eq_refl)).
-    assert (HL : (len R <? 3) = false) by reflexivity.
-    unfold xls_defined_name. rewrite HR at 1. fold p. rewrite Hp1, Hp2, Hp3, Hp. cbn [orb].
-    rewrite HL, E1. reflexivity.
+  intros k i0 i1 r0 r1 c0 c1 rest. set (p := Ptg.cls_ptg 58 90 122 k).
+  assert (Hp : is_ptg p 58 90 122 = true) by (unfold p; destruct k; reflexivity).
+  set (R := p :: [i0; i1] ++ [r0; r1] ++ [c0; c1] ++ rest).
+  assert (E1 : u16_in R 1 = Ok (i0 + 256 * i1)) by (apply (u16_in_bytes [p] _ i0 i1 1 eq_refl)).
+  assert (E3 : u16_in R 3 = Ok (r0 + 256 * r1)) by (apply (u16_in_bytes [p; i0; i1] _ r0 r1 3 eq_refl)).
+  assert (E5 : u16_in R 5 = Ok (c0 + 256 * c1)) by (apply (u16_in_bytes [p; i0; i1; r0; r1] rest c0 c1 5 eq_refl)).
+  assert (HL : (len R <? 7) = false) by (unfold R; cbn [app]; rewrite !len_cons; lia).
+  unfold dn_total, xls_defined_name. fold R. unfold R at 1. fold p. rewrite Hp, HL, E1, E3, E5. cbn [obind].
+  destruct (Ptg_total.push_cell_ref_ok (r0 + 256 * r1) (c0 + 256 * c1) []) as [x ->]. cbn [obind]. eexists. reflexivity.
+Qed.
+
+Lemma dn_area3d : forall k i0 i1 r0 r1 s0 s1 c0 c1 d0 d1 rest,
+  dn_total (Ptg.cls_ptg 59 91 123 k :: [i0; i1] ++ [r0; r1] ++ [s0; s1] ++ [c0; c1] ++ [d0; d1] ++ rest).
+Proof.
+  intros k i0 i1 r0 r1 s0 s1 c0 c1 d0 d1 rest. set (p := Ptg.cls_ptg 59 91 123 k).
+  assert (Hp1 : is_ptg p 58 90 122 = false) by (unfold p; destruct k; reflexivity).
+  assert (Hp : is_ptg p 59 91 123 = true) by (unfold p; destruct k; reflexivity).
+  set (R := p :: [i0; i1] ++ [r0; r1] ++ [s0; s1] ++ [c0; c1] ++ [d0; d1] ++ rest).
+  assert (E1 : u16_in R 1 = Ok (i0 + 256 * i1)) by (apply (u16_in_bytes [p] _ i0 i1 1 eq_refl)).
+  assert (E3 : u16_in R 3 = Ok (r0 + 256 * r1)) by (apply (u16_in_bytes [p; i0; i1] _ r0 r1 3 eq_refl)).
+  assert (E5 : u16_in R 5 = Ok (s0 + 256 * s1)) by (apply (u16_in_bytes [p; i0; i1; r0; r1] _ s0 s1 5 eq_refl)).
+  assert (E7 : u16_in R 7 = Ok (c0 + 256 * c1)) by (apply (u16_in_bytes [p; i0; i1; r0; r1; s0; s1] _ c0 c1 7 eq_refl)).
+  assert (E9 : u16_in R 9 = Ok (d0 + 256 * d1))
+    by (apply (u16_in_bytes [p; i0; i1; r0; r1; s0; s1; c0; c1] rest d0 d1 9 eq_refl)).
+  assert (HL : (len R <? 11) = false) by (unfold R; cbn [app]; rewrite !len_cons; lia).
+  unfold dn_total, xls_defined_name. fold R. unfold R at 1. fold p. rewrite Hp1, Hp, HL, E1, E3, E7, E5, E9. cbn [obind].
+  destruct (Ptg_total.push_cell_ref_ok (r0 + 256 * r1) (c0 + 256 * c1) []) as [x ->]. cbn [obind app].
+  destruct (Ptg_total.push_cell_ref_ok (s0 + 256 * s1) (d0 + 256 * d1) (x ++ [COLON])) as [y ->]. cbn [obind].
+  eexists. reflexivity.
+Qed.
+
+Lemma dn_err3d : forall p i0 i1 rest,
+  is_ptg p 58 90 122 = false -> is_ptg p 59 91 123 = false ->
+  (is_ptg p 60 92 124 || is_ptg p 61 93 125) = true ->
+  dn_total (p :: [i0; i1] ++ rest).
+Proof.
+  intros p i0 i1 rest H1 H2 H3. set (R := p :: [i0; i1] ++ rest).
+  assert (E1 : u16_in R 1 = Ok (i0 + 256 * i1)) by (apply (u16_in_bytes [p] rest i0 i1 1 eq_refl)).
+  assert (HL : (len R <? 3) = false) by (unfold R; cbn [app]; rewrite !len_cons; lia).
+  unfold dn_total, xls_defined_name. fold R. unfold R at 1. rewrite H1, H2, H3, HL, E1. cbn [obind].
+  eexists. reflexivity.
+Qed.
+
+(* whatever the expression: its first token is one the fallback knows (a 3-D reference, complete), or it
+   answers "Unsupported ptg: xx" *)
+Lemma dn_encode : forall e rest, dn_total (Ptg.encode_xls e ++ rest).
+Proof.
+  unfold Ptg.encode_xls.
+  induction e using Ptg_proofs.expr_ind'; intros rest; cbn [Ptg.encode];
+    try (destruct k; cbn [Ptg.cls_ptg app Ptg.le]; apply dn_other; reflexivity);
+    try (cbn [app Ptg.le]; apply dn_other; reflexivity).
+  - (* ERef3d *) cbn [Ptg.le app]. apply (dn_ref3d k).
+  - (* EArea3d *) cbn [Ptg.le app]. apply (dn_area3d k).
+  - (* EUn *) rewrite <- app_assoc. apply IHe.
+  - (* EBin *) rewrite <- !app_assoc. apply IHe1.
+  - (* EParen *) rewrite <- app_assoc. apply IHe.
+  - (* EFunc *)
+    destruct args as [|a args].
+    + destruct k; cbn [flat_map Ptg.cls_ptg app]; apply dn_other; reflexivity.
+    + inversion H as [|? ? Ha _]; subst. cbn [flat_map]. rewrite <- !app_assoc. apply Ha.
+  - (* EFuncVar *)
+    destruct args as [|a args].
+    + destruct k; cbn [flat_map Ptg.cls_ptg app]; apply dn_other; reflexivity.
+    + inversion H as [|? ? Ha _]; subst. cbn [flat_map]. rewrite <- !app_assoc. apply Ha.
+  - (* ESum *) rewrite <- app_assoc. apply IHe.
+  - (* EAttrPost *) rewrite <- !app_assoc. apply IHe.
+  - (* EMem *) destruct m, k; cbn [Ptg.mem_ptg Ptg.cls_ptg app]; apply dn_other; reflexivity.
+  - (* ERefErr3d *)
+    cbn [Ptg.le app].
+    apply (dn_err3d (Ptg.cls_ptg 60 92 124 k)); destruct k; reflexivity.
+  - (* EAreaErr3d *)
+    cbn [Ptg.le app].
+    apply (dn_err3d (Ptg.cls_ptg 61 93 125 k)); destruct k; reflexivity.
+Qed.
+
+(* the first-token rendering of an expression (only ever used when the decoder rejects the formula) *)
+Definition first_tok (e : Ptg.expr) : option N * str :=
+  match xls_defined_name (Ptg.encode_xls e) with Ok f => f | _ => (None, []) end.
+Lemma first_tok_ok : forall e, xls_defined_name (Ptg.encode_xls e) = Ok (first_tok e).
+Proof.
+  intros e. unfold first_tok. destruct (dn_encode e []) as [f Hf]. rewrite app_nil_r in Hf.
+  rewrite Hf. reflexivity.
 Qed.
 
 (* ------------------------------------------------------------------------------------- *)
 (** * the Lbl record *)
 
-Definition lbl_head (n : str * xref) (ch : ln_choice) : bytes :=
-  le16 (ln_flags ch) ++ [ln_key ch; len (lbl_units (fst n) ch)] ++ le16 (len (xref_rgce (snd n)))
+Definition lbl_head (n : str * Ptg.expr) (ch : ln_choice) : bytes :=
+  le16 (ln_flags ch) ++ [ln_key ch; len (lbl_units (fst n) ch)] ++ le16 (len (Ptg.encode_xls (snd n)))
   ++ [0; 0] ++ le16 (ln_itab ch) ++ [0; 0; 0; 0].
 
 Lemma lbl_split : forall n ch,
   lbl_body n ch = lbl_head n ch ++ (b2n (ln_wide ch) :: seg_bytes (ln_wide ch) (lbl_units (fst n) ch))
-                  ++ xref_rgce (snd n).
+                  ++ Ptg.encode_xls (snd n) ++ ln_rgcb ch.
 Proof. reflexivity. Qed.
 
 Lemma ustr_nocch_enc : forall wide us rest, seg_ok wide us = true -> all_lt 65536 us = true ->
@@ -163,48 +185,58 @@ Proof.
   - unfold units_of. apply biff_decode_encode. exact Hsc.
 Qed.
 
-Lemma lbl_enc : forall nxti n ch, ln_legal nxti n ch = true ->
-  xls_lbl (lbl_body n ch) = Ok (fst n, (Some (xref_ixti (snd n)), xref_text (snd n)), xref_rgce (snd n)).
+(* what the globals loop keeps of a Lbl record: name, first-token rendering, rgce — the rgce is found
+   behind the name, whatever extra data (rgcb) follows it *)
+Definition lbl_entry (n : str * Ptg.expr) : str * (option N * str) * bytes :=
+  (fst n, first_tok (snd n), Ptg.encode_xls (snd n)).
+
+Lemma lbl_enc : forall env n ch, ln_legal env n ch = true -> xls_lbl (lbl_body n ch) = Ok (lbl_entry n).
 Proof.
-  intros nxti n ch H. unfold ln_legal in H.
+  intros env n ch H. unfold ln_legal in H.
+  apply andb_true_iff in H. destruct H as [H Hbody].
   apply andb_true_iff in H. destruct H as [H Hbi].
   apply andb_true_iff in H. destruct H as [H Hitab].
   apply andb_true_iff in H. destruct H as [H Hkey].
   apply andb_true_iff in H. destruct H as [H Hfl].
-  apply andb_true_iff in H. destruct H as [H Hix].
+  apply andb_true_iff in H. destruct H as [H Hrl].
   apply andb_true_iff in H. destruct H as [H Hx].
   apply andb_true_iff in H. destruct H as [H Hw].
   apply andb_true_iff in H. destruct H as [Hn Hlen].
   assert (Hleg : legal_short_string (ln_wide ch) (lbl_units (fst n) ch) = true)
     by (apply lbl_units_legal; [assumption|lia|assumption]).
   destruct (legal_short_parts _ _ Hleg) as (Hcch & Hlt & Hseg).
-  set (us := lbl_units (fst n) ch) in *. set (rgce := xref_rgce (snd n)).
+  set (us := lbl_units (fst n) ch) in *. set (rgce := Ptg.encode_xls (snd n)) in *.
   set (S1 := b2n (ln_wide ch) :: seg_bytes (ln_wide ch) us).
-  assert (Hrg : len rgce <= 11) by (unfold rgce; destruct (snd n); cbn; lia).
-  assert (Hd : lbl_body n ch = lbl_head n ch ++ S1 ++ rgce) by reflexivity.
+  set (T := ln_rgcb ch).
+  assert (Hd : lbl_body n ch = lbl_head n ch ++ S1 ++ rgce ++ T) by reflexivity.
   assert (HH : len (lbl_head n ch) = 14) by reflexivity.
-  assert (Hlb : len (lbl_body n ch) = 14 + len S1 + len rgce)
+  assert (HS1 : len S1 = 1 + (if ln_wide ch then 2 * len us else len us))
+    by (unfold S1; rewrite len_cons, len_seg_bytes; lia).
+  assert (Hlb : len (lbl_body n ch) = 14 + len S1 + len rgce + len T)
     by (rewrite Hd, !len_app, HH; lia).
   unfold xls_lbl. rewrite Hlb.
-  replace (14 + len S1 + len rgce <? 14) with false by lia.
+  replace (14 + len S1 + len rgce + len T <? 14) with false by lia.
   change (nth 3 (lbl_body n ch) 0) with (len us).
   change (nth 0 (lbl_body n ch) 0) with (ln_flags ch mod 256).
   replace (read_u16 (drop 4 (lbl_body n ch))) with (@Ok N (len rgce)).
   2: { change (drop 4 (lbl_body n ch))
-         with (le16 (len rgce) ++ [0; 0] ++ le16 (ln_itab ch) ++ [0; 0; 0; 0] ++ S1 ++ rgce).
+         with (le16 (len rgce) ++ [0; 0] ++ le16 (ln_itab ch) ++ [0; 0; 0; 0] ++ S1 ++ rgce ++ T).
        rewrite read_u16_le16. reflexivity. }
-  cbn [obind]. replace (14 + len S1 + len rgce <? 14 + len rgce) with false by lia.
-  replace (drop 14 (lbl_body n ch)) with (S1 ++ rgce)
+  cbn [obind]. replace (14 + len S1 + len rgce + len T <? 14 + len rgce) with false by lia.
+  replace (drop 14 (lbl_body n ch)) with (S1 ++ rgce ++ T)
     by (rewrite Hd, <- HH, drop_len_app; reflexivity).
-  assert (Hname : read_ustr_nocch (S1 ++ rgce) (len us) = utf16_decode us)
-    by (apply (ustr_nocch_enc _ us rgce Hseg Hlt)).
+  assert (Hname : read_ustr_nocch (S1 ++ rgce ++ T) (len us) = utf16_decode us)
+    by (apply (ustr_nocch_enc _ us (rgce ++ T) Hseg Hlt)).
   rewrite Hname.
-  replace (drop (14 + len S1 + len rgce - len rgce) (lbl_body n ch)) with rgce.
+  assert (Hhb : match S1 ++ rgce ++ T with b :: _ => N.odd b | [] => false end = ln_wide ch)
+    by (unfold S1; cbn [app]; apply odd_b2n).
+  rewrite Hhb. cbv zeta. rewrite <- HS1.
+  replace (14 + len S1 + len rgce + len T <? 14 + len S1 + len rgce) with false by lia.
+  replace (take (len rgce) (drop (14 + len S1) (lbl_body n ch))) with rgce.
   2: { rewrite Hd, app_assoc.
-       replace (14 + len S1 + len rgce - len rgce) with (len (lbl_head n ch ++ S1))
-         by (rewrite len_app, HH; lia).
-       rewrite drop_len_app. reflexivity. }
-  cbv zeta. unfold rgce. rewrite (defined_name_enc (snd n) Hx). cbn [obind].
+       replace (14 + len S1) with (len (lbl_head n ch ++ S1)) by (rewrite len_app, HH; lia).
+       rewrite drop_len_app, take_len_app. reflexivity. }
+  unfold rgce. rewrite first_tok_ok. cbn [obind].
   unfold us. rewrite (lbl_name_decoded _ _ Hn Hbi). reflexivity.
 Qed.
 
@@ -282,124 +314,84 @@ Proof.
   change (len (xti6 x)) with 6. lia.
 Qed.
 
-(* ------------------------------------------------------------------------------------- *)
-(** * the globals loop over the ExternSheet and Lbl records *)
+(* the pieces of the array, put together again, are the array *)
+Lemma xpieces_concat : forall cuts b, fst (xpieces cuts b) ++ concat (snd (xpieces cuts b)) = b.
+Proof.
+  induction cuts as [|c t IH]; intros b; cbn [xpieces]; [cbn; apply app_nil_r|].
+  specialize (IH (skipn c b)). destruct (xpieces t (skipn c b)) as [p ps]. cbn [fst snd concat] in *.
+  rewrite IH. apply firstn_skipn.
+Qed.
 
-Lemma globals_extern : forall nsheets (xs : list (N * N * N)) rest st,
-  forallb (xls_xti_legal nsheets) xs = true -> len xs < 1370 -> nc rest ->
-  xls_globals (records (frame 23 (le16 (len xs) ++ flat_map xti6 xs) ++ rest)) st =
+Lemma conts_of_cont_opt : forall cs, conts_of (cont_opt cs) = cs.
+Proof. intros [|c cs]; reflexivity. Qed.
+
+(* ------------------------------------------------------------------------------------- *)
+(** * the globals loop over the ExternSheet record, its CONTINUE records, and the Lbl records *)
+
+Lemma globals_extern : forall nsheets (xs : list (N * N * N)) cuts rest st,
+  forallb (xls_xti_legal nsheets) xs = true -> len xs <= 65535 ->
+  len (fst (extern_rec xs cuts)) <= 65535 ->
+  forallb (fun p => len p <=? 65535) (snd (extern_rec xs cuts)) = true ->
+  rest <> [] -> nc rest ->
+  xls_globals (records (frame_rec 23 (extern_rec xs cuts) ++ rest)) st =
   xls_globals (records rest)
               (mkXlsState (xg_sheets st) (xg_names st) (xg_xtis st ++ xs) (xg_1904 st)).
 Proof.
-  intros nsheets xs rest st Hx Hn Hnc.
-  set (d := le16 (len xs) ++ flat_map xti6 xs).
-  assert (Hlen : len d = 2 + 6 * len xs) by (unfold d; rewrite len_app, len_xti6_blocks; reflexivity).
-  rewrite (records_plain 23 d rest ltac:(lia) Hnc). cbn [xls_globals].
+  intros nsheets xs cuts rest st Hx Hn Hl0 Hls Hne Hnc.
+  rewrite (records_step _ _ _ (next_record_conts 23 (extern_rec xs cuts) rest Hl0 Hls Hne Hnc)).
+  pose proof (xpieces_concat cuts (flat_map xti6 xs)) as Hc.
+  unfold extern_rec in *. destruct (xpieces cuts (flat_map xti6 xs)) as [p0 ps]. cbn [fst snd] in *.
+  cbn [xls_globals].
   change (23 =? 47) with false. change (23 =? 66) with false. change (23 =? 34) with false.
   change (23 =? 1054) with false. change (23 =? 224) with false. change (23 =? 133) with false.
   change (23 =? 2057) with false. change (23 =? 24) with false. change (23 =? 23) with true.
-  cbn iota. rewrite Hlen. replace (2 + 6 * len xs <? 2) with false by lia.
-  unfold d. rewrite read_u16_le16. cbn [obind].
-  change (drop 2 (le16 (len xs) ++ flat_map xti6 xs)) with (flat_map xti6 xs).
+  cbn iota. rewrite len_app. change (len (le16 (len xs))) with 2.
+  replace (2 + len p0 <? 2) with false by lia.
+  rewrite read_u16_le16. cbn [obind].
+  change (drop 2 (le16 (len xs) ++ p0)) with p0. rewrite conts_of_cont_opt, Hc.
   rewrite (chunks_exact_blocks_gen _ xti6 6 ltac:(lia) (fun _ => eq_refl)).
   rewrite (firstN_all _ _ _ (eq_sym (len_map _ _ xti6 xs))).
   rewrite (xls_xtis_enc nsheets xs Hx). reflexivity.
 Qed.
 
-Lemma len_lbl_body : forall nxti n ch, ln_legal nxti n ch = true -> len (lbl_body n ch) <= 65535.
+Lemma len_lbl_body : forall env n ch, ln_legal env n ch = true -> len (lbl_body n ch) <= 65535.
 Proof.
-  intros nxti n ch H. unfold ln_legal in H.
-  repeat (apply andb_true_iff in H; destruct H as [H ?]).
-  assert (Hrg : len (xref_rgce (snd n)) <= 11) by (destruct (snd n); cbn; lia).
-  assert (Hu : len (lbl_units (fst n) ch) <= 255).
-  { unfold lbl_units. destruct (N.testbit (ln_flags ch) 5); [|lia].
-    destruct (builtin_id (fst n)); [cbn; lia|lia]. }
-  rewrite lbl_split, !len_app, len_cons, len_seg_bytes.
-  change (len (lbl_head n ch)) with 14. destruct (ln_wide ch); lia.
+  intros env n ch H. unfold ln_legal in H. apply andb_true_iff in H. destruct H as [_ H]. lia.
 Qed.
 
-Lemma nc_lbls : forall nxti names chs rest, forallb2 (ln_legal nxti) names chs = true -> nc rest ->
+Lemma nc_lbls : forall env names chs rest, forallb2 (ln_legal env) names chs = true -> nc rest ->
   nc (flat_map (fun nc => frame 24 (lbl_body (fst nc) (snd nc))) (combine names chs) ++ rest).
 Proof.
-  intros nxti [|n names] [|ch chs] rest H Hn; cbn in H; try discriminate; [exact Hn|].
+  intros env [|n names] [|ch chs] rest H Hn; cbn in H; try discriminate; [exact Hn|].
   apply andb_true_iff in H. destruct H as [H1 _].
   cbn [combine flat_map fst snd]. rewrite <- app_assoc.
-  apply nc_frame; [discriminate|apply (len_lbl_body nxti); exact H1].
+  apply nc_frame; [discriminate|apply (len_lbl_body env); exact H1].
 Qed.
 
-Definition lbl_entry (n : str * xref) : str * (option N * str) * bytes :=
-  (fst n, (Some (xref_ixti (snd n)), xref_text (snd n)), xref_rgce (snd n)).
-
-Lemma globals_lbls : forall nxti names chs rest st,
-  forallb2 (ln_legal nxti) names chs = true -> nc rest ->
+Lemma globals_lbls : forall env names chs rest st,
+  forallb2 (ln_legal env) names chs = true -> nc rest ->
   xls_globals (records (flat_map (fun nc => frame 24 (lbl_body (fst nc) (snd nc)))
                                  (combine names chs) ++ rest)) st =
   xls_globals (records rest)
               (mkXlsState (xg_sheets st) (xg_names st ++ map lbl_entry names) (xg_xtis st)
                           (xg_1904 st)).
 Proof.
-  intros nxti. induction names as [|n names IH]; intros [|ch chs] rest st H Hn; cbn in H;
+  intros env. induction names as [|n names IH]; intros [|ch chs] rest st H Hn; cbn in H;
     try discriminate.
   - cbn. rewrite app_nil_r. destruct st; reflexivity.
   - apply andb_true_iff in H. destruct H as [H1 H2].
     cbn [combine flat_map map fst snd]. rewrite <- app_assoc.
-    rewrite (records_plain 24 _ _ (len_lbl_body nxti n ch H1) (nc_lbls nxti names chs rest H2 Hn)).
+    rewrite (records_plain 24 _ _ (len_lbl_body env n ch H1) (nc_lbls env names chs rest H2 Hn)).
     cbn [xls_globals]. change (24 =? 47) with false. change (24 =? 66) with false.
     change (24 =? 34) with false. change (24 =? 1054) with false. change (24 =? 224) with false.
     change (24 =? 133) with false. change (24 =? 2057) with false. change (24 =? 24) with true.
-    cbn iota. rewrite (lbl_enc nxti n ch H1). cbn [obind].
+    cbn iota. rewrite (lbl_enc env n ch H1). cbn [obind].
     rewrite (IH chs rest _ H2 Hn). cbn [xg_sheets xg_names xg_xtis xg_1904].
     rewrite <- app_assoc. reflexivity.
 Qed.
 
 (* ------------------------------------------------------------------------------------- *)
-(** * name -> sheet resolution *)
-
-Lemma nthN_map : forall (A B : Type) (f : A -> B) l i,
-  nthN (map f l) i = option_map f (nthN l i).
-Proof.
-  intros A B f. induction l as [|x l IH]; intros i; [reflexivity|].
-  cbn [map nthN]. destruct (i =? 0); [reflexivity|apply IH].
-Qed.
-
-Lemma nthN_in : forall (A : Type) (l : list A) i x, nthN l i = Some x -> In x l.
-Proof.
-  intros A. induction l as [|a l IH]; intros i x H; [discriminate|].
-  cbn [nthN] in H. destruct (i =? 0); [inversion H; left; reflexivity|right; eapply IH; exact H].
-Qed.
-
-Lemma nthN_some_ : forall (A : Type) (l : list A) i, i < len l -> exists x, nthN l i = Some x.
-Proof.
-  intros A. induction l as [|a l IH]; intros i Hi.
-  - unfold len in Hi. cbn in Hi. lia.
-  - cbn [nthN]. destruct (i =? 0) eqn:E; [eexists; reflexivity|].
-    apply IH. rewrite len_cons in Hi. lia.
-Qed.
-
-Lemma sheet_of_spec : forall (shs : list (N * meta)) xtis i,
-  forallb (xls_xti_legal (len shs)) xtis = true -> i < len xtis ->
-  xls_sheet_of (mkXlsState shs [] xtis false) i = spec_xti_sheet (map snd shs) xtis i.
-Proof.
-  intros shs xtis i Hx Hi. unfold xls_sheet_of, spec_xti_sheet. cbn [xg_xtis xg_sheets].
-  destruct (nthN_some_ _ xtis i Hi) as [[[a b] c] Hn]. rewrite Hn. cbn [fst snd].
-  rewrite forallb_forall in Hx. specialize (Hx _ (nthN_in _ _ _ _ Hn)).
-  unfold xls_xti_legal in Hx. cbn [fst snd] in Hx.
-  apply andb_true_iff in Hx. destruct Hx as [Hx _].
-  apply andb_true_iff in Hx. destruct Hx as [Hx Hb2].
-  apply andb_true_iff in Hx. destruct Hx as [_ Hb].
-  rewrite Hb2. rewrite nthN_map.
-  destruct (nthN_some_ _ shs b ltac:(lia)) as [pm Hp]. rewrite Hp.
-  cbn [option_map]. rewrite Ptg_proofs.quote_sheet_name_spec. reflexivity.
-Qed.
-
-(* ------------------------------------------------------------------------------------- *)
 (** * the name's formula through the cell-formula decoder (Ptg) *)
-
-Lemma nthN_ptg : forall (A : Type) (l : list A) i, Ptg.nthN l i = nthN l i.
-Proof.
-  induction l as [|x l IH]; intros i; cbn [Ptg.nthN nthN]; [reflexivity|].
-  destruct (i =? 0); [reflexivity|apply IH].
-Qed.
 
 Lemma le16_le2 : forall u, u < 65536 -> le16 u = Ptg.le 2 u.
 Proof.
@@ -407,59 +399,8 @@ Proof.
   rewrite E. reflexivity.
 Qed.
 
-Lemma sheet_env : forall st i, Ptg.spec_sheet_xls (xls_formula_env st) i = xls_sheet_of st i.
-Proof.
-  intros st i. unfold Ptg.spec_sheet_xls, xls_sheet_of, xls_formula_env. cbn [Ptg.xe_xtis Ptg.xe_sheets].
-  rewrite nthN_ptg. destruct (nthN (xg_xtis st) i) as [[[a b] c]|]; [|reflexivity].
-  destruct (b <? 32768); [|reflexivity]. rewrite nthN_ptg, nthN_map.
-  destruct (nthN (xg_sheets st) b); reflexivity.
-Qed.
-
 Lemma u16_le16 : forall i, i mod 256 + 256 * (i / 256) = i.
 Proof. intros i. pose proof (N.div_mod' i 256). lia. Qed.
-
-Lemma xref_formula : forall show_f64 env x, xref_ok x = true -> xref_ixti x < 65536 ->
-  Ptg.xls_parse_formula show_f64 env (le16 (len (xref_rgce x)) ++ xref_rgce x)
-  = Ok (Ptg.spec_sheet_xls env (xref_ixti x) ++ [BANG] ++ xref_text x).
-Proof.
-  intros show_f64 env x Hok Hi. destruct x as [k i a|k i a b|k i|k i]; cbn [xref_ixti xref_ok xref_text] in *.
-  - (* one 3-D cell *)
-    destruct (Ptg_proofs.wf_cref_bounds 65536 a Hok) as (Hr & Hc & Hf).
-    assert (Hwf : Ptg.wf_xls env (Ptg.ERef3d k i a) = true).
-    { unfold Ptg.wf_xls. cbn [Ptg.wf]. apply N.ltb_lt in Hi. rewrite Hi. exact Hok. }
-    pose proof (@Ptg_proofs.rpn_correct_xls show_f64 env (Ptg.ERef3d k i a) Hwf) as R.
-    unfold Ptg.encode_xls, Ptg.frame_xls in R. cbn [Ptg.encode app length] in R.
-    cbn [xref_rgce]. change (len _) with 7. rewrite !le16_le2 by (assumption || lia).
-    rewrite !app_length, !Ptg_proofs.le_length in R. cbn [length Nat.add N.of_nat Pos.of_succ_nat Pos.succ] in R.
-    cbn [app] in *. rewrite R by lia. reflexivity.
-  - (* one 3-D area *)
-    apply andb_true_iff in Hok. destruct Hok as [Ha Hb].
-    destruct (Ptg_proofs.wf_cref_bounds 65536 a Ha) as (Hr & Hc & Hf).
-    destruct (Ptg_proofs.wf_cref_bounds 65536 b Hb) as (Hr' & Hc' & Hf').
-    assert (Hwf : Ptg.wf_xls env (Ptg.EArea3d k i a b) = true).
-    { unfold Ptg.wf_xls. cbn [Ptg.wf]. apply N.ltb_lt in Hi. rewrite Hi.
-      change (Ptg.wf_cref 65536 a) with (cref_ok a). change (Ptg.wf_cref 65536 b) with (cref_ok b).
-      rewrite Ha, Hb. reflexivity. }
-    pose proof (@Ptg_proofs.rpn_correct_xls show_f64 env (Ptg.EArea3d k i a b) Hwf) as R.
-    unfold Ptg.encode_xls, Ptg.frame_xls in R. cbn [Ptg.encode app length] in R.
-    cbn [xref_rgce]. change (len _) with 11. rewrite !le16_le2 by (assumption || lia).
-    rewrite !app_length, !Ptg_proofs.le_length in R. cbn [length Nat.add N.of_nat Pos.of_succ_nat Pos.succ] in R.
-    cbn [app] in *. rewrite R by lia. reflexivity.
-  - (* PtgRefErr3d *)
-    destruct k; cbn [xref_rgce Ptg.cls_ptg app]; change (len _) with 7; unfold le16;
-      change (7 mod 256) with 7; change (7 / 256) with 0;
-      unfold Ptg.xls_parse_formula; cbn [length Nat.ltb Nat.leb app Ptg.u16_at skipn obind Ptg.drop];
-      change (7 + 256 * 0) with 7; change (N.to_nat 7) with 7%nat;
-      cbn [length Nat.ltb Nat.leb Ptg.take obind Ptg.xls_run Ptg.xls_expected Ptg.xls_step Ptg.u16_at skipn Ptg.drop fst snd];
-      rewrite u16_le16; reflexivity.
-  - (* PtgAreaErr3d *)
-    destruct k; cbn [xref_rgce Ptg.cls_ptg app]; change (len _) with 11; unfold le16;
-      change (11 mod 256) with 11; change (11 / 256) with 0;
-      unfold Ptg.xls_parse_formula; cbn [length Nat.ltb Nat.leb app Ptg.u16_at skipn obind Ptg.drop];
-      change (11 + 256 * 0) with 11; change (N.to_nat 11) with 11%nat;
-      cbn [length Nat.ltb Nat.leb Ptg.take obind Ptg.xls_run Ptg.xls_expected Ptg.xls_step Ptg.u16_at skipn Ptg.drop fst snd];
-      rewrite u16_le16; reflexivity.
-Qed.
 
 Lemma map_o_map_ok : forall (A B C : Type) (f : B -> outcome C) (g : A -> B) (h : A -> C) l,
   (forall x, In x l -> f (g x) = Ok (h x)) -> map_o f (map g l) = Ok (map h l).
@@ -469,17 +410,26 @@ Proof.
   rewrite IH by (intros y Hy; apply H; right; exact Hy). reflexivity.
 Qed.
 
+Lemma forallb2_in : forall (A B : Type) (f : A -> B -> bool) l m x,
+  forallb2 f l m = true -> In x l -> exists y, f x y = true.
+Proof.
+  intros A B f. induction l as [|a l IH]; intros [|b m] x H Hin; cbn in H; try discriminate; [destruct Hin|].
+  apply andb_true_iff in H. destruct H as [H1 H2]. destruct Hin as [->|Hin]; [eauto|eapply IH; eassumption].
+Qed.
+
 (* ------------------------------------------------------------------------------------- *)
 (** * the whole xls report *)
 
 Theorem xls_parse_encode : forall show_f64 c wb,
   xls_legal c wb = true ->
   xls_parse_workbook show_f64 (xls_stream c wb) =
-  Ok (mkParsed (wb_sheets wb) [] (spec_names_xls c wb) (wb_1904 wb)).
+  Ok (mkParsed (wb_sheets wb) [] (spec_names_xls show_f64 c wb) (wb_1904 wb)).
 Proof.
   intros show_f64 c wb Hl. unfold xls_legal in Hl.
   apply andb_true_iff in Hl. destruct Hl as [Hl Hpos].
   apply andb_true_iff in Hl. destruct Hl as [Hl Htail].
+  apply andb_true_iff in Hl. destruct Hl as [Hl Hps].
+  apply andb_true_iff in Hl. destruct Hl as [Hl Hp0].
   apply andb_true_iff in Hl. destruct Hl as [Hl Hnx].
   apply andb_true_iff in Hl. destruct Hl as [Hl Hxt].
   apply andb_true_iff in Hl. destruct Hl as [Hl Hnames].
@@ -488,6 +438,7 @@ Proof.
   apply andb_true_iff in Hl. destruct Hl as [Hl J2].
   apply andb_true_iff in Hl. destruct Hl as [J0 J1].
   assert (Nt : nc (lc_tail c)) by (apply negb_true_iff in Htail; exact Htail).
+  set (env := spec_env_xls c wb) in *.
   set (shs := map (fun sc : meta * ls_choice => (ls_pos (snd sc), fst sc))
                   (combine (wb_sheets wb) (lc_sheets c))).
   assert (Hshs : map snd shs = wb_sheets wb)
@@ -500,16 +451,17 @@ Proof.
                         (combine (wb_names wb) (lc_names c))).
     set (EX := match lc_xtis c with
                | [] => []
-               | xs => frame 430 [1; 0; 1; 4] ++ frame 23 (le16 (len xs) ++ flat_map xti6 xs)
+               | xs => frame 430 [1; 0; 1; 4] ++ frame_rec 23 (extern_rec xs (lc_xcuts c))
                end).
     assert (N4 : nc (frame 10 [] ++ lc_tail c)) by (apply nc_frame; [discriminate|exact len_nil_ok]).
     assert (N3 : nc (frames (lc_junk3 c) ++ frame 10 [] ++ lc_tail c)) by (apply nc_frames; assumption).
     assert (NL : nc (LB ++ frames (lc_junk3 c) ++ frame 10 [] ++ lc_tail c))
-      by (apply (nc_lbls (len (lc_xtis c))); assumption).
+      by (apply (nc_lbls env); assumption).
     set (R3 := LB ++ frames (lc_junk3 c) ++ frame 10 [] ++ lc_tail c) in *.
-    assert (Hxlen : forall xs : list (N * N * N), len xs < 1370 ->
-              len (le16 (len xs) ++ flat_map xti6 xs) <= 65535)
-      by (intros xs Hx; rewrite len_app, len_xti6_blocks; change (len (le16 (len xs))) with 2; lia).
+    assert (R3ne : R3 <> []).
+    { unfold R3. intros E. apply app_eq_nil in E. destruct E as [_ E].
+      apply app_eq_nil in E. destruct E as [_ E]. apply app_eq_nil in E. destruct E as [E _].
+      vm_compute in E. discriminate E. }
     assert (NE : nc (EX ++ R3)).
     { unfold EX. destruct (lc_xtis c); [exact NL|]. rewrite <- app_assoc.
       apply nc_frame; [discriminate|reflexivity || (cbn; lia)]. }
@@ -539,7 +491,7 @@ Proof.
              frames (lc_junk2 c) ++
              match lc_xtis c with
              | [] => []
-             | p :: l => frame 430 [1; 0; 1; 4] ++ frame 23 (le16 (len (p :: l)) ++ flat_map xti6 (p :: l))
+             | p :: l => frame 430 [1; 0; 1; 4] ++ frame_rec 23 (extern_rec (p :: l) (lc_xcuts c))
              end ++ LB ++ frames (lc_junk3 c) ++ frame 10 [] ++ lc_tail c)
       with (frame 2057 bof_globals ++ frames (lc_junk0 c) ++
             (if lc_omit_1904 c && negb (wb_1904 wb) then [] else frame 34 (le16 (b2n (wb_1904 wb)))) ++ R1)
@@ -572,46 +524,45 @@ Proof.
     rewrite (globals_boundsheets (wb_sheets wb) (lc_sheets c) _ _ Hsheets N2).
     rewrite (globals_junk (lc_junk2 c) _ _ J2 NE).
     unfold push_sheets. cbn [xg_sheets xg_names xg_xtis xg_1904 app]. fold shs.
-    (* ExternSheet *)
+    (* ExternSheet and its CONTINUE records *)
     assert (Hex : xls_globals (records (EX ++ R3)) (mkXlsState shs [] [] (wb_1904 wb)) =
                   xls_globals (records R3) (mkXlsState shs [] (lc_xtis c) (wb_1904 wb))).
     { unfold EX. destruct (lc_xtis c) as [|x xs] eqn:Ex; [reflexivity|].
       rewrite <- app_assoc.
-      assert (NF : nc (frame 23 (le16 (len (x :: xs)) ++ flat_map xti6 (x :: xs)) ++ R3))
-        by (apply nc_frame; [discriminate|apply Hxlen; lia]).
+      assert (NF : nc (frame_rec 23 (extern_rec (x :: xs) (lc_xcuts c)) ++ R3)).
+      { unfold frame_rec. rewrite <- app_assoc. apply nc_frame; [discriminate|]. apply N.leb_le in Hp0. exact Hp0. }
       rewrite (globals_junk1 430 [1; 0; 1; 4] _ _ eq_refl NF).
-      rewrite (globals_extern (len (wb_sheets wb)) (x :: xs) R3 _ Hxt ltac:(lia) NL).
+      apply N.leb_le in Hnx, Hp0.
+      rewrite (globals_extern (len (wb_sheets wb)) (x :: xs) (lc_xcuts c) R3 _ Hxt Hnx Hp0 Hps R3ne NL).
       reflexivity. }
     rewrite Hex. unfold R3.
-    rewrite (globals_lbls (len (lc_xtis c)) (wb_names wb) (lc_names c) _ _ Hnames N3).
+    rewrite (globals_lbls env (wb_names wb) (lc_names c) _ _ Hnames N3).
     cbn [xg_sheets xg_names xg_xtis xg_1904 app].
     rewrite (globals_junk (lc_junk3 c) _ _ J3 N4).
     rewrite (records_plain 10 [] (lc_tail c) len_nil_ok Nt).
     reflexivity. }
   rewrite Hg. cbn [obind].
   set (st := mkXlsState shs (map lbl_entry (wb_names wb)) (lc_xtis c) (wb_1904 wb)).
-  assert (Hxl : len shs = len (wb_sheets wb)).
-  { unfold shs. rewrite len_map. unfold len.
-    rewrite combine_length, (forallb2_length _ _ _ _ _ Hsheets), Nat.min_id. reflexivity. }
-  assert (Hres : xls_resolve show_f64 st = Ok (spec_names_xls c wb)).
+  (* the environment the decoder gets is the one the names are written against *)
+  assert (Henv : xls_formula_env st = env).
+  { unfold xls_formula_env, env, spec_env_xls, st. cbn [xg_sheets xg_names xg_xtis].
+    f_equal.
+    - rewrite <- Hshs, map_map. reflexivity.
+    - rewrite map_map. reflexivity. }
+  assert (Hres : xls_resolve show_f64 st = Ok (spec_names_xls show_f64 c wb)).
   { unfold xls_resolve, spec_names_xls. unfold st at 2. cbn [xg_names].
     apply map_o_map_ok. intros n Hin.
-    assert (Hn : xref_ok (snd n) = true /\ xref_ixti (snd n) < len (lc_xtis c)).
-    { clear - Hnames Hin. revert Hnames Hin. generalize (lc_names c).
-      induction (wb_names wb) as [|m l IH]; intros [|ch chs] H Hin; cbn in H; try discriminate;
-        [destruct Hin|].
-      apply andb_true_iff in H. destruct H as [H1 H2]. destruct Hin as [->|Hin].
-      - unfold ln_legal in H1. repeat (apply andb_true_iff in H1; destruct H1 as [H1 ?]).
-        split; [assumption|lia].
-      - eapply IH; eassumption. }
-    destruct Hn as [Hok Hix]. apply N.ltb_lt in Hnx.
-    unfold xls_resolve_one, lbl_entry. cbn [fst snd].
-    rewrite (xref_formula show_f64 (xls_formula_env st) (snd n) Hok) by lia.
-    rewrite sheet_env.
-    change (xls_sheet_of st (xref_ixti (snd n)))
-      with (xls_sheet_of (mkXlsState shs [] (lc_xtis c) false) (xref_ixti (snd n))).
-    rewrite sheet_of_spec, Hshs; [reflexivity| |exact Hix].
-    rewrite Hxl. exact Hxt. }
+    destruct (forallb2_in _ _ _ _ _ n Hnames Hin) as [ch Hch].
+    unfold ln_legal in Hch. apply andb_true_iff in Hch. destruct Hch as [Hch _].
+    apply andb_true_iff in Hch. destruct Hch as [Hch _]. apply andb_true_iff in Hch. destruct Hch as [Hch _].
+    apply andb_true_iff in Hch. destruct Hch as [Hch _]. apply andb_true_iff in Hch. destruct Hch as [Hch _].
+    apply andb_true_iff in Hch. destruct Hch as [Hch Hrl]. apply andb_true_iff in Hch. destruct Hch as [_ Hwe].
+    apply N.ltb_lt in Hrl.
+    unfold xls_resolve_one, lbl_entry. cbn [fst snd]. rewrite Henv.
+    unfold len in Hrl |- *. rewrite le16_le2 by exact Hrl.
+    change (Ptg.le 2 (N.of_nat (length (Ptg.encode_xls (snd n)))) ++ Ptg.encode_xls (snd n))
+      with (Ptg.frame_xls (Ptg.encode_xls (snd n))).
+    rewrite (Ptg_proofs.rpn_correct_xls show_f64 env (snd n) Hwe Hrl). reflexivity. }
   rewrite Hres. cbn [obind xg_sheets xg_1904 st].
   assert (Hex : existsb (fun pm : N * meta => len (xls_stream c wb) <? fst pm) shs = false).
   { apply not_true_is_false. intros He. apply existsb_exists in He.
@@ -626,7 +577,7 @@ Theorem sheets_in_order_xls : forall show_f64 c wb, xls_legal c wb = true ->
 Proof. intros show_f64 c wb Hl. eexists. split; [apply xls_parse_encode; exact Hl|reflexivity]. Qed.
 
 Theorem defined_names_in_order_xls : forall show_f64 c wb, xls_legal c wb = true ->
-  exists p, xls_parse_workbook show_f64 (xls_stream c wb) = Ok p /\ p_names p = spec_names_xls c wb.
+  exists p, xls_parse_workbook show_f64 (xls_stream c wb) = Ok p /\ p_names p = spec_names_xls show_f64 c wb.
 Proof. intros show_f64 c wb Hl. eexists. split; [apply xls_parse_encode; exact Hl|reflexivity]. Qed.
 
 (* the date flag, composed with C10's plumbing theorems (NUMBER / RK / MULRK cells and FORMULA
@@ -653,23 +604,36 @@ Proof.
   - intros formats cells b dur g H. apply date_flag_cells_xls in H. exact H.
 Qed.
 
-(* non-vacuity: sheets, an XTI table, absolute and relative names (the former known class) *)
-Definition ex_xlsn_wb : workbook xref :=
+(* non-vacuity: sheets; an XTI table of 3 entries cut into the ExternSheet record and two CONTINUE records
+   (the second cut inside an XTI), one of them a span of sheets; names: a relative 3-D reference; Print_Titles
+   as Excel writes it (PtgMemFunc in front of the union of two 3-D areas) through the span, stored as the
+   built-in id 7 with extra data behind the rgce; an area; a name defined through the name stored after it;
+   a reference that no longer exists *)
+Definition ex_xlsn_wb : workbook Ptg.expr :=
   mkWb [mkMeta [97; 233] Hidden MacroSheet; mkMeta [128512; 20013] VeryHidden WorkSheet]
-       [([110], XRef Ptg.CRef 1 (Ptg.Build_cref 0 1 false true));
-        ([20013], XArea Ptg.CVal 0 (Ptg.Build_cref 0 0 false false) (Ptg.Build_cref 9 25 true false));
-        (s_xlnm ++ [80; 114; 105; 110; 116; 95; 65; 114; 101; 97], XRefErr Ptg.CArr 0)] true.   (* _xlnm.Print_Area *)
+       [([110], Ptg.ERef3d Ptg.CRef 1 (Ptg.Build_cref 0 1 false true));
+        (s_xlnm ++ [80; 114; 105; 110; 116; 95; 84; 105; 116; 108; 101; 115],      (* _xlnm.Print_Titles *)
+         Ptg.EMem Ptg.CRef Ptg.MFunc 0
+           (Ptg.EBin 16 (Ptg.EArea3d Ptg.CRef 2 (Ptg.Build_cref 0 0 false false) (Ptg.Build_cref 65535 1 false false))
+                        (Ptg.EArea3d Ptg.CRef 2 (Ptg.Build_cref 0 0 false false) (Ptg.Build_cref 1 255 false false))));
+        ([20013], Ptg.EArea3d Ptg.CVal 0 (Ptg.Build_cref 0 0 false false) (Ptg.Build_cref 9 25 true false));
+        ([97], Ptg.EBin 5 (Ptg.EName Ptg.CVal 5) (Ptg.EInt 2));
+        ([98], Ptg.ERefErr3d Ptg.CArr 0 [0; 0; 0; 0])] true.
 Definition ex_xlsn_c : xls_choice :=
   mkLc [mkLs 0 false 63; mkLs 10 true 9]
-       [mkLn false 0 0 0; mkLn true 1 65 1; mkLn false 33 0 1] [(0, 1, 1); (0, 0, 0)]   (* the third: hidden + fBuiltin, stored as id 6 *)
+       [mkLn false 0 0 0 []; mkLn true 33 65 1 [2; 0; 9; 9]; mkLn true 1 0 1 []; mkLn false 0 0 0 [1]; mkLn false 0 0 0 []]
+       [(0, 1, 1); (0, 0, 0); (0, 0, 1)] [6%nat; 7%nat]
        [(225, [176; 4])] [(224, [0; 0; 14; 0])] [] [(255, [])] false [9; 8].
 Lemma xlsn_nonvacuous :
   xls_legal ex_xlsn_c ex_xlsn_wb = true /\
-  spec_names_xls ex_xlsn_c ex_xlsn_wb =
-    [([110], [97; 233; 33; 66; 36; 49]);
+  spec_names_xls (fun _ => []) ex_xlsn_c ex_xlsn_wb =
+    [([110], [97; 233; 33; 66; 36; 49]);                                              (* aé!B$1 *)
+     (s_xlnm ++ [80; 114; 105; 110; 116; 95; 84; 105; 116; 108; 101; 115],
+      [97; 233; 58; 128512; 20013; 33; 36; 65; 36; 49; 58; 36; 66; 36; 54; 53; 53; 51; 54; 44; 97; 233; 58; 128512; 20013; 33; 36; 65; 36; 49; 58; 36; 73; 86; 36; 50]);
      ([20013], [128512; 20013; 33; 36; 65; 36; 49; 58; 36; 90; 49; 48]);
-     (s_xlnm ++ [80; 114; 105; 110; 116; 95; 65; 114; 101; 97], [128512; 20013; 33; 35; 82; 69; 70; 33])] /\
-  lbl_units (s_xlnm ++ [80; 114; 105; 110; 116; 95; 65; 114; 101; 97]) (mkLn false 33 0 1) = [6].
+     ([97], [98; 42; 50]);                                                             (* b*2: forward reference *)
+     ([98], [128512; 20013; 33; 35; 82; 69; 70; 33])] /\
+  lbl_units (s_xlnm ++ [80; 114; 105; 110; 116; 95; 84; 105; 116; 108; 101; 115]) (mkLn true 33 65 1 []) = [7].
 Proof. vm_compute. repeat split. Qed.
 
 (* xlsx: the same composition with C10's date_iff_style_xlsx *)
